@@ -7,13 +7,12 @@ namespace Driver.C20
 
 def ok (xs : List Sexp) : Sexp := .list (.atom "ok" :: xs)
 
-/-- (ser SKIP "css"): tokenize as the code does (C06 model with the documented defects switched on, so that
-    this correspondence isolates serialize.go), then serialize with the model of serialize.go -/
+/-- (ser SKIP "css"): tokenize with the C06 model, then serialize with the model of serialize.go -/
 def handle (req : Sexp) : Sexp :=
   let r : Option Sexp := match req with
     | .list [.atom "ser", skip, .str css] => do
       let skip ← skip.asBool?
-      let ts := tokenize { commentEof := true, badUrlPair := true, urlBackslashNl := true } css.toList
+      let ts := tokenize Quirks.spec css.toList
       let ts := if skip then dropComments ts else ts
       match serialize WR.Gen.C20Pairs.badPairs ts with
       | some s => some (ok [.str (String.ofList s)])
